@@ -339,13 +339,25 @@ func (m *monitor) judgeConversion(caseID, layer string, s *spec, pre, ref, got o
 		m.note("reference branch without the plain ICS-20 effect", fmt.Sprintf("%s pre=%s ref=%s", s.key(layer), pre.Voucher, ref.Voucher))
 		return ""
 	}
-	if len(s.recvAcc) != 20 {
-		m.count(layer + "_receiver_not_20_bytes_unjudged")
-		return ""
-	}
 	dv, _ := sub(got.Voucher, ref.Voucher)
 	de, _ := sub(got.Escrow, ref.Escrow)
 	ds, _ := sub(got.Supply, ref.Supply)
+	if len(s.recvAcc) != 20 {
+		// which EVM account belongs to such a receiver is not pinned (see Assume), so the token side is not judged; the
+		// coin side is: either the receiver's vouchers are untouched and the module's voucher escrow / the voucher supply did
+		// not move either, or the receiver lost exactly the amount
+		vc, ec, sc := classify(dv, true, s.amt), classify(de, true, s.amt), classify(ds, true, s.amt)
+		detail["shape"] = fmt.Sprintf("voucher=%s,module-voucher=%s,voucher-supply=%s", vc, ec, sc)
+		switch {
+		case vc == "0" && ec == "0" && sc == "0":
+			m.count(layer + "_receiver_not_20_bytes_untouched")
+		case vc == "-amount" && (ec == "+amount" && sc == "0" || ec == "0" && sc == "-amount"):
+			m.count(layer + "_receiver_not_20_bytes_coin_side_converted")
+		default:
+			m.r.Violation(caseID, fmt.Sprintf("atomicity/receiver-not-20-bytes/voucher=%s,module-voucher=%s,voucher-supply=%s", vc, ec, sc), detail)
+		}
+		return ""
+	}
 	p := m.w.pairs[s.Voucher]
 	vc, ec, sc := classify(dv, true, amt), classify(de, true, amt), classify(ds, true, amt)
 	tokChanged := []string{}
